@@ -22,7 +22,8 @@ import repo_shim  # noqa: E402,F401
 import guppylang  # noqa: E402
 from guppylang_internals.error import GuppyError  # noqa: E402
 from guppylang_internals.span import to_span  # noqa: E402
-from guppylang_internals.nodes import NestedFunctionDef, MakeIter, IterNext  # noqa: E402
+from guppylang_internals.nodes import (  # noqa: E402
+    NestedFunctionDef, MakeIter, IterNext, DesugaredListComp, DesugaredArrayComp, DesugaredGeneratorExpr)
 import guppylang_internals.checker.func_checker as fc  # noqa: E402
 import guppylang_internals.checker.cfg_checker as cc  # noqa: E402
 import guppylang_internals.checker.linearity_checker as lc  # noqa: E402
@@ -43,11 +44,37 @@ def pos(node):
     return [sp.start.line - HLINES, sp.start.column]
 
 
-def names_in(node):
-    """Name nodes read by an expression, in evaluation (= source) order."""
-    out = [n for n in ast.walk(node) if isinstance(n, ast.Name)]
-    out.sort(key=lambda n: (n.lineno, n.col_offset))
+COMPS = (DesugaredListComp, DesugaredArrayComp, DesugaredGeneratorExpr)
+
+
+def names_in(node, bound=frozenset(), flag=None):
+    """(Name node, in_comprehension) read by an expression, in evaluation order (field order of
+    the AST).  Names bound inside a comprehension (loop targets, iterator temporaries) are local
+    to it: reads of them are not external uses (own code, independent of VariableVisitor)."""
+    if isinstance(node, ast.Name):
+        return [] if node.id in bound else [(node, flag)]
+    if isinstance(node, COMPS):
+        gens = [node.generator] if isinstance(node, DesugaredArrayComp) else list(node.generators)
+        b = set(bound)
+        out = []
+        for g in gens:
+            out += names_in(g.iter_assign.value, frozenset(b), "comp")
+            for t in g.iter_assign.targets:
+                b |= {n.id for n in ast.walk(t) if isinstance(n, ast.Name)}
+            out += names_in(g.next_call, frozenset(b), "comp")
+            b |= {n.id for n in ast.walk(g.target) if isinstance(n, ast.Name)}
+            for c in g.ifs:
+                out += names_in(c, frozenset(b), "comp")
+        out += names_in(node.elt, frozenset(b), "comp")
+        return out
+    out = []
+    for ch in ast.iter_child_nodes(node):
+        out += names_in(ch, bound, flag)
     return out
+
+
+def has_comp(node):
+    return any(isinstance(n, COMPS) for n in ast.walk(node))
 
 
 def is_local(x, local_names):
@@ -75,6 +102,10 @@ def rhs_of(value, local_names):
     if (isinstance(value, ast.Call) and isinstance(value.func, ast.Name)
             and value.func.id in KNOWN_FUNCS and all(isinstance(a, ast.Constant) for a in value.args)):
         return ("lit", "int")
+    if isinstance(value, COMPS) or (isinstance(value, ast.Call) and has_comp(value)):
+        return ("lit", "comp")
+    if isinstance(value, ast.Compare) or (isinstance(value, ast.UnaryOp) and isinstance(value.op, ast.Not)):
+        return ("lit", "bool")
     if isinstance(value, MakeIter):
         return ("lit", "Range")
     if isinstance(value, IterNext):
@@ -87,8 +118,11 @@ def stmt_events(node, local_names, nested_out):
     ev = []
 
     def uses(e):
-        for n in names_in(e):
-            ev.append(("use", n.id, [pos(n)]))
+        for n, fl in names_in(e):
+            if fl:
+                ev.append(("use", n.id, [pos(n)], "nested"))   # read inside a comprehension
+            else:
+                ev.append(("use", n.id, [pos(n)]))
 
     if isinstance(node, NestedFunctionDef):
         inner = extract_cfg(node.cfg, [a.arg for a in node.args.args], nested_out)
@@ -114,8 +148,9 @@ def stmt_events(node, local_names, nested_out):
         else:
             raise Unmodelled("assign target " + ast.dump(t)[:60])
     elif isinstance(node, ast.AugAssign):
-        if not isinstance(node.target, ast.Name) or not isinstance(node.value, ast.Constant):
+        if not isinstance(node.target, ast.Name):
             raise Unmodelled("augassign")
+        uses(node.value)
         ev.append(("use", node.target.id, [pos(node.target)]))
         ev.append(("assign", node.target.id, ("copy", node.target.id)))
     elif isinstance(node, ast.Expr):
@@ -177,7 +212,7 @@ def extract_cfg(cfg, input_names, nested_out):
         for s in bb.statements:
             evs += stmt_events(s, local_names, nested_out)
         if bb.branch_pred is not None:
-            for n in names_in(bb.branch_pred):
+            for n, _fl in names_in(bb.branch_pred):
                 evs.append(("use", n.id, [pos(n)]))
         # an explicit use event precedes every copy, so that positions are known
         fixed = []
